@@ -469,16 +469,37 @@ def sch_count(ctx: Ctx) -> RuleResult:
                 if not ok:
                     r.violate(f"{m.fn.short}: pending set returned by the wait helper is not re-bound to the waited set",
                               _where(m, e.node), "finished futures stay counted as in flight", norm_src(e.node))
-    # bound = max_workers
+    r.ob(m.bound_name is not None, {"bound": m.bound_name})
+    if m.bound_name is None:
+        raise Undecided("no parameter is compared with the in-flight count")
+    return r
+
+
+def sch_poolsize(ctx: Ctx) -> RuleResult:
+    """The pool has exactly as many workers as the bound the scheduler counts against."""
+    r = RuleResult("SCH-POOLSIZE")
+    m = model(ctx)
     mx = m.max_expr
-    params = [a.arg for a in m.fn.node.args.args + m.fn.node.args.kwonlyargs]  # type: ignore[attr-defined]
-    ok = isinstance(mx, ast.Name) and mx.id in params
-    r.ob(ok, {"max_workers": norm_src(mx) if mx is not None else None})
+    r.require(m.bound_name is not None, "bound not discovered")
     if mx is None:
+        r.ob(False)
         r.violate(f"{m.fn.short}: pool created without max_workers", _where(m, m.pool_ctor),
-                  "the worker pool is not bounded by max_concurrency", norm_src(m.pool_ctor))
-    elif not ok:
-        raise Undecided(f"max_workers is not a parameter of the scheduler: {norm_src(mx)}")
+                  "the pool size is the library default, unrelated to max_concurrency: submissions counted as in flight may queue "
+                  "inside the pool, or more threads than the limit run", norm_src(m.pool_ctor))
+        return r
+    ok = isinstance(mx, ast.Name) and mx.id == m.bound_name
+    r.ob(ok, {"max_workers": norm_src(mx), "bound compared by the guards": m.bound_name})
+    if not ok:
+        shrinks = any(isinstance(x, ast.Call) and dotted(x.func) == "min" for x in ast.walk(mx)) or isinstance(mx, ast.Constant) \
+            or (isinstance(mx, ast.BinOp) and isinstance(mx.op, (ast.Sub, ast.FloorDiv, ast.Div)))
+        other_param = isinstance(mx, ast.Name)
+        if shrinks or other_param:
+            r.violate(f"{m.fn.short}: pool size {norm_src(mx)} differs from the bound '{m.bound_name}' the scheduler counts against",
+                      _where(m, m.pool_ctor), "the scheduler submits up to the bound and counts submissions as running; with fewer "
+                      "workers the surplus queues inside the pool while slots look busy (ready nodes wait although the limit is "
+                      "not reached)", norm_src(m.pool_ctor))
+        else:
+            raise Undecided(f"max_workers expression not recognised: {norm_src(mx)}")
     return r
 
 
@@ -970,5 +991,5 @@ RULES = {
     "SCH-SEQ-PRE": sch_seq_pre, "SCH-SEQ-POST": sch_seq_post, "SCH-PRIO": sch_prio, "SCH-FRESHPICK": sch_freshpick,
     "SCH-WAITSITES": sch_waitsites, "SCH-WAITMODE": sch_waitmode, "SCH-GUARD": sch_guard, "SCH-MIXWAIT": sch_mixwait,
     "SCH-PROGRESS": sch_progress, "SCH-EXIT": sch_exit, "SCH-EMPTYWAIT": sch_emptywait, "SCH-DEACT": sch_deact,
-    "SCH-ACTIVE": sch_active,
+    "SCH-ACTIVE": sch_active, "SCH-POOLSIZE": sch_poolsize,
 }
